@@ -9,7 +9,12 @@ let parse_op (o : string) : op =
 
 let () = iter_lines (fun line ->
   match words line with
-  | [id; nw; gc; lc; steal; bal; bodies; thr] ->
+  | id :: nw :: gc :: lc :: steal :: bal :: bodies :: thr :: blk ->
+    (* optional 9th field: storage blocks of the local queues, blocks '/', workers '.', e.g. 0/1 *)
+    let blocks_spec = match blk with
+      | [b] -> List.map (fun x -> List.map (fun y -> nat_of_int (int_of_string y))
+                           (List.filter (fun y -> y <> "") (String.split_on_char '.' x))) (String.split_on_char '/' b)
+      | _ -> [List.init (int_of_string nw) nat_of_int] in
     let bodies = List.map (fun b -> if b = "-" then [] else
                              List.map (fun x -> nat_of_int (int_of_string x)) (List.filter (fun x -> x <> "") (String.split_on_char '.' b)))
         (String.split_on_char ';' bodies) in
@@ -19,7 +24,7 @@ let () = iter_lines (fun line ->
     let cfg = { nworkers = nat_of_int (int_of_string nw); gcap = z_of_int (int_of_string gc);
                 lcap = z_of_int (int_of_string lc); stealing = z_of_int (int_of_string steal);
                 interval = z_of_int (if bal > 0 then bal else -1); bodies = bodies;
-                blocks = [List.init (int_of_string nw) nat_of_int] } in
+                blocks = blocks_spec } in
     let s0 = init cfg progs in
     let nt = List.length (threads s0) in
     let tids = List.init nt nat_of_int in
